@@ -15,4 +15,38 @@ theorem feq_ne {a b : ℝ} (h : a ≠ b) : feq a b = false := by
   · simp [not_le.mpr h']
 
 
+/-- `vector.py:Vector.randomise` -/
+noncomputable def gen_epsilonP (e c s a : ℝ) : ℝ := (e - ((2 : ℝ) * (Real.log ((1 : ℝ) + ((c * s) / a)))))
+theorem gen_epsilonP_eq (e c s a : ℝ)  : gen_epsilonP e c s a = e - 2 * Real.log (1 + c * s / a) := by
+  unfold gen_epsilonP
+  rfl
+
+/-- `vector.py:Vector.randomise` -/
+noncomputable def gen_deltaFallback (e c s a : ℝ) (n : ℕ) : ℝ := ((((c * s) / (Real.exp (e / (4 : ℝ)) - 1)) - a) / (n : ℝ))
+theorem gen_deltaFallback_eq (e c s a : ℝ) (n : ℕ)  : gen_deltaFallback e c s a n = (c * s / expm1 (e / 4) - a) / (n : ℝ) := by
+  unfold gen_deltaFallback
+  simp only [expm1, transc_exp]
+
+/-- `vector.py:Vector.randomise` -/
+noncomputable def gen_epsilonPFallback (e : ℝ) : ℝ := (e / (2 : ℝ))
+theorem gen_epsilonPFallback_eq (e : ℝ)  : gen_epsilonPFallback e = e / 2 := by
+  unfold gen_epsilonPFallback
+  rfl
+
+/-- `vector.py:Vector.randomise` -/
+noncomputable def gen_scale (s ep : ℝ) : ℝ := ((s * (2 : ℝ)) / ep)
+theorem gen_scale_eq (s ep : ℝ)  : gen_scale s ep = s * 2 / ep := by
+  unfold gen_scale
+  rfl
+
+
+/-- the first part of `Vector.randomise` as coded (read from the AST) IS the model's `vectorCalib` -/
+theorem vectorCalib_eq (e c s a : ℝ) (n : ℕ) :
+    vectorCalib e c s a n =
+      if gen_epsilonP e c s a ≤ 0 then
+        ⟨gen_epsilonPFallback e, gen_deltaFallback e c s a n, gen_scale s (gen_epsilonPFallback e)⟩
+      else ⟨gen_epsilonP e c s a, 0, gen_scale s (gen_epsilonP e c s a)⟩ := by
+  simp only [vectorCalib, gen_epsilonP, gen_epsilonPFallback, gen_deltaFallback, gen_scale, transc_log, transc_exp, expm1]
+  all_goals first | rfl | (split_ifs <;> rfl) | (split_ifs <;> simp)
+
 end DPL.Gen.C17
